@@ -54,6 +54,17 @@ class Tacd:
         stdin_data = None
         if source == "flag":
             args += ["--domain", domain, "--acme-ext", ext]
+        elif source in ("file-leading-blank", "file-crlf"):
+            # value files with a leading blank line / CRLF line ends and trailing blanks: the value is the file's content, trimmed
+            df = os.path.join(self.dir, "domain-%d.txt" % id(self))
+            ef = os.path.join(self.dir, "ext-%d.txt" % id(self))
+            if source == "file-crlf":
+                open(df, "w", newline="").write(domain + "\r\n")
+                open(ef, "w", newline="").write(ext + " \r\n\r\n")
+            else:
+                open(df, "w").write(domain + "\n")
+                open(ef, "w").write("\n" + ext + "\n")
+            args += ["--domain-file", df, "--acme-ext-file", ef]
         elif source == "file":
             df = os.path.join(self.dir, "domain-%d.txt" % id(self))
             ef = os.path.join(self.dir, "ext-%d.txt" % id(self))
@@ -118,11 +129,13 @@ class Tacd:
         return rc, err
 
 
-def handshake(sock, server_name, alpn):
-    """Returns dict(ok, alpn, der, error)."""
+def handshake(sock, server_name, alpn, max_version=None):
+    """Returns dict(ok, alpn, der, error).  max_version: "1.2" = a client that offers TLS 1.2 at most."""
     ctx = ssl.SSLContext(ssl.PROTOCOL_TLS_CLIENT)
     ctx.check_hostname = False
     ctx.verify_mode = ssl.CERT_NONE
+    if max_version == "1.2":
+        ctx.maximum_version = ssl.TLSVersion.TLSv1_2
     if alpn is not None:
         ctx.set_alpn_protocols(alpn)
     try:
